@@ -88,6 +88,32 @@ func callAPI(port int, q apiQuery) ([]byte, error) {
 	return io.ReadAll(resp.Body)
 }
 
+// abortAPI sends a request and goes away before the answer: after the pause it shuts down its sending
+// side (the server sees the peer hang up and cancels the request's context while the handler runs),
+// then drains whatever still comes back so that the load stays closed-loop (requests do not pile up
+// faster than the daemon serves them). hard = close both directions at once instead.
+func abortAPI(port int, q apiQuery, pause time.Duration, hard bool) error {
+	body, _ := json.Marshal(map[string]interface{}{"jsonrpc": "2.0", "id": 1, "method": q.Method, "params": q.Params})
+	cn, err := net.DialTimeout("tcp", fmt.Sprintf("127.0.0.1:%d", port), 5*time.Second)
+	if err != nil {
+		return err
+	}
+	defer cn.Close()
+	fmt.Fprintf(cn, "POST /v1 HTTP/1.1\r\nHost: 127.0.0.1\r\nContent-Type: application/json\r\nContent-Length: %d\r\n\r\n%s", len(body), body)
+	if pause > 0 {
+		time.Sleep(pause)
+	}
+	if hard {
+		return nil
+	}
+	if tc, ok := cn.(*net.TCPConn); ok {
+		tc.CloseWrite()
+	}
+	cn.SetReadDeadline(time.Now().Add(30 * time.Second))
+	io.Copy(io.Discard, cn)
+	return nil
+}
+
 var reFactomHeight = regexp.MustCompile(`"factomheight":-?[0-9]+`)
 var rePusd = regexp.MustCompile(`,"pusd":[0-9]+`)
 var rePusdOnly = regexp.MustCompile(`"pusd":[0-9]+`)
@@ -459,6 +485,41 @@ func c18Run(j *orch.Job, r *orch.Result) error {
 			}
 		}(ci)
 	}
+	// impatient clients: they send requests (rich lists first of all: the most work per request) and
+	// hang up at once or a moment later. Their answers are never read, so they are judged only through
+	// the final ledger differential, the race detector and the daemon staying alive.
+	var aborted int64
+	heavy := []int{}
+	for qi, q := range Q {
+		if strings.Contains(q.Method, "rich") {
+			heavy = append(heavy, qi)
+		}
+	}
+	for ci := 0; ci < 2+p.Clients/4; ci++ {
+		wg.Add(1)
+		go func(ci int) {
+			defer wg.Done()
+			crng := rand.New(rand.NewSource(p.Seed*977 + int64(ci)))
+			for atomic.LoadInt32(&stopClients) == 0 {
+				qi := crng.Intn(len(Q))
+				if len(heavy) > 0 && crng.Intn(3) != 0 {
+					qi = heavy[crng.Intn(len(heavy))]
+				}
+				pause := time.Duration(0)
+				if crng.Intn(2) == 0 {
+					pause = time.Duration(crng.Intn(3000)) * time.Microsecond
+				}
+				hard := crng.Intn(12) == 0
+				if abortAPI(port, Q[qi], pause, hard) == nil {
+					atomic.AddInt64(&aborted, 1)
+				}
+				if hard {
+					time.Sleep(40 * time.Millisecond) // open-loop: keep these rare
+				}
+				time.Sleep(time.Duration(1+crng.Intn(4)) * time.Millisecond)
+			}
+		}(ci)
+	}
 	// sync in segments; one history per segment
 	segStart := first - 1
 	violations := 0
@@ -592,6 +653,7 @@ func c18Run(j *orch.Job, r *orch.Result) error {
 		return err
 	}
 	r.Count("api_errors", atomic.LoadInt64(&apiErrors))
+	r.Count("requests_aborted_by_client", atomic.LoadInt64(&aborted))
 	r.Count("differential_pairs", 1)
 	if final.Total != prep.Final {
 		var rows map[string][]string
@@ -697,6 +759,7 @@ func checkC18(c *Ctx) *orch.Outcome {
 	o.Extra["differential_pairs"] = orch.SumCounter(rs, "differential_pairs")
 	o.Extra["distinct_race_reports_with_daemon_frames"] = len(raceSigs)
 	o.Extra["api_transport_errors"] = orch.SumCounter(rs, "api_errors")
+	o.Extra["requests_aborted_by_client"] = orch.SumCounter(rs, "requests_aborted_by_client")
 	o.Extra["error_responses_not_judged"] = orch.SumCounter(rs, "error_responses_not_judged")
 	o.Extra["error_texts"] = orch.UnionDistinct(rs, "error_texts")
 	o.Extra["porcupine_timeouts_counted_inconclusive_for_cross_response_order_only"] = orch.SumCounter(rs, "porcupine_timeouts")
